@@ -50,6 +50,7 @@ def main() -> int:
                 shard=shard,
                 nshards=nshards,
                 sample_every=sample_every,
+                recheck_every=int(os.environ.get("HV_RECHECK_EVERY", "97") or 97),
             )
             since_gc += stats.executions - before
             if since_gc > 300:
